@@ -29,6 +29,7 @@ VARIABLES x, l, st, reqk
 tvars == <<x, l, st, reqk>>
 
 TraceThreads == (0..10) \cup {99}
+WideThreads == (0..90) \cup {99}     \* the "crowd" executions: dozens of requests parked at the same time
 Ev == ndJsonDeserialize(IOEnv.TRACE_EVENTS)
 Ix == ndJsonDeserialize(IOEnv.TRACE_INDEX)
 Diag == "TRACE_DIAG" \in DOMAIN IOEnv /\ IOEnv.TRACE_DIAG = "1"
